@@ -2,6 +2,7 @@ package main
 
 import (
 	"fmt"
+	"os"
 	"math/rand"
 	"strings"
 )
@@ -52,7 +53,8 @@ type pstmt struct {
 	handlers []handler
 
 	// call
-	args []*pexpr // IN: expression; OUT/INOUT: var
+	args    []*pexpr // IN: expression; OUT/INOUT: var
+	preNull []string // variables handed to OUT parameters: set to NULL right before the CALL
 
 	// curloop
 	curDesc bool
@@ -198,7 +200,11 @@ func (s *pstmt) sql() string {
 		for i, a := range s.args {
 			as[i] = a.sql()
 		}
-		return "CALL " + s.name + "(" + strings.Join(as, ", ") + ")"
+		pre := ""
+		for _, v := range s.preNull {
+			pre += "SET " + v + " = NULL; " // see known finding out-param-not-reset-to-null
+		}
+		return pre + "CALL " + s.name + "(" + strings.Join(as, ", ") + ")"
 	case "curloop":
 		ord := ""
 		if s.curDesc {
@@ -234,7 +240,8 @@ type gen struct {
 	callees  []*proc
 	inLoop   int
 	feat     map[string]bool
-	noSelect bool
+	noSelect bool            // known finding nested-call-result-set-dropped: procedures that are CALLed by others have no SELECT
+	noShadow map[string]bool // handler targets are never shadowed (known finding handler-body-resolves-names-in-raising-scope)
 }
 
 func lit(v int64) *pexpr       { return &pexpr{kind: "lit", v: v} }
@@ -302,19 +309,18 @@ func (g *gen) block(nbody int, top bool) *pstmt {
 	for i := 0; i < nd; i++ {
 		name := g.newVar()
 		if !top && len(g.ints) > 0 && r.Intn(3) == 0 {
-			name = g.pickInt() // shadow an outer variable (or a parameter)
-			g.feat["shadowing"] = true
+			if cand := g.pickInt(); !g.noShadow[cand] {
+				name = cand // shadow an outer variable (or a parameter)
+				g.feat["shadowing"] = true
+			}
 		}
 		if declared[name] {
 			continue
 		}
 		declared[name] = true
 		d := decl{name: name}
-		if r.Intn(4) != 0 {
-			d.def = lit(int64(r.Intn(6)))
-		} else {
-			g.feat["declare-without-default"] = true
-		}
+		// always with DEFAULT: known finding declare-without-default-is-zero-not-null (via=domain)
+		d.def = lit(int64(r.Intn(6)))
 		b.decls = append(b.decls, d)
 		g.ints = append(g.ints, name)
 	}
@@ -324,8 +330,10 @@ func (g *gen) block(nbody int, top bool) *pstmt {
 		g.strs = append(g.strs, name)
 		g.feat["string-var"] = true
 	}
-	if r.Intn(4) == 0 {
+	// handlers only in the outermost block of a procedure: known finding handler-outlives-its-block (via=domain)
+	if top && r.Intn(2) == 0 {
 		h := handler{exit: r.Intn(2) == 0, cond: "SQLEXCEPTION", setVar: g.pickInt(), setExpr: lit(int64(40 + r.Intn(9)))}
+		g.noShadow[h.setVar] = true
 		b.handlers = append(b.handlers, h)
 		if h.exit {
 			g.feat["exit-handler"] = true
@@ -351,7 +359,7 @@ func (g *gen) loopBody() []*pstmt {
 
 func (g *gen) stmt() *pstmt {
 	r := g.rnd
-	deep := g.depth >= 3
+	deep := g.depth >= 3 || (small && g.depth >= 2)
 	for {
 		switch p := r.Intn(100); {
 		case p < 18:
@@ -471,9 +479,18 @@ func (g *gen) stmt() *pstmt {
 			s := &pstmt{kind: "call", name: c.name}
 			for _, pa := range c.params {
 				if pa.mode == "IN" {
-					s.args = append(s.args, g.intExpr(1))
+					a := g.intExpr(1)
+					if a.kind == "var" {
+						// known finding in-param-assignment-leaks-to-caller (via=domain): never a bare variable
+						a = &pexpr{kind: "bin", op: "+", l: a, r: lit(0)}
+					}
+					s.args = append(s.args, a)
 				} else {
-					s.args = append(s.args, vr(g.pickInt()))
+					v := g.pickInt()
+					s.args = append(s.args, vr(v))
+					if pa.mode == "OUT" {
+						s.preNull = append(s.preNull, v)
+					}
 				}
 			}
 			g.feat["nested-call"] = true
@@ -505,6 +522,7 @@ func stripSets(ss []*pstmt, name string) {
 					s.args[i] = lit(1) // would be an OUT argument: keep the counter out of it
 					s.kind = "log"
 					s.e = lit(1)
+					s.preNull = nil
 				}
 			}
 		}
@@ -528,8 +546,10 @@ func stripSets(ss []*pstmt, name string) {
 	}
 }
 
-func genProc(rnd *rand.Rand, idx int, callees []*proc, feat map[string]bool) *proc {
-	g := &gen{rnd: rnd, pfx: fmt.Sprintf("p%d", idx), callees: callees, feat: feat, lkinds: map[string]string{}}
+var small = os.Getenv("C24_SMALL") != ""
+
+func genProc(rnd *rand.Rand, idx int, callees []*proc, feat map[string]bool, isCallee bool) *proc {
+	g := &gen{rnd: rnd, pfx: fmt.Sprintf("p%d", idx), callees: callees, feat: feat, lkinds: map[string]string{}, noSelect: isCallee, noShadow: map[string]bool{}}
 	p := &proc{name: fmt.Sprintf("proc%d", idx)}
 	np := 1 + rnd.Intn(3)
 	for i := 0; i < np; i++ {
@@ -539,6 +559,10 @@ func genProc(rnd *rand.Rand, idx int, callees []*proc, feat map[string]bool) *pr
 		g.ints = append(g.ints, name)
 		feat["param-"+mode] = true
 	}
-	p.body = g.block(2+rnd.Intn(4), true)
+	nb := 2 + rnd.Intn(4)
+	if small {
+		nb = 1 + rnd.Intn(2)
+	}
+	p.body = g.block(nb, true)
 	return p
 }
